@@ -11,7 +11,7 @@ META = {
                  "members emitted as a symbolic identity over presence atoms; R02.2 every serialiser used as one "
                  "item emits exactly one item under the caller's guards; R02.3/R02.4 header/break framing typestate "
                  "of CdnsExporter; R02.5 RFC 8618 mandatory members emitted unconditionally; R02.6 stored indices "
-                 "come from the add_* of the table they index. R02.8 (R06.2 imported): every flush threshold covers the widest head its argument can need, so no integer is dropped silently. counter-reset is decided as 'm_blocks_written is 0 at every normal exit of rotate_output' (unconditional store, or a store under exactly m_blocks_written != 0), wherever the store stands relative to the encoder rotation. The closing-break decision in rotate_output reads the counter after the optional export and before anything clears it (the read may sit in the condition or in the definition of a flag the condition tests). R02.3/R02.4 accept a break decided before the export by `blocks written || (export && block not empty)` when `not empty` is the negation of write_block(block)'s own early-return test; framing is judged on the normal path (a guard's action while unwinding is R16.6's business).",
+                 "come from the add_* of the table they index. R02.8 (R06.2 imported): every flush threshold covers the widest head its argument can need, so no integer is dropped silently. counter-reset is decided as 'm_blocks_written is 0 at every normal exit of rotate_output' (unconditional store, or a store under exactly m_blocks_written != 0), wherever the store stands relative to the encoder rotation. The closing-break decision in rotate_output reads the counter after the optional export and before anything clears it (the read may sit in the condition or in the definition of a flag the condition tests). R02.3/R02.4 accept a break decided before the export by `blocks written || (export && block not empty)` when `not empty` is the negation of write_block(block)'s own early-return test; framing is judged on the normal path (a guard's action while unwinding is R16.6's business). R02.6 also: an insertion function returns the table's answer on every path (a remembered index needs its flag / optional lowered wherever the table is replaced, or the memo copied with the table); an index member that may receive a remembered insertion result is undecided here (R01.11 / R12.9 ask that clear() forgets it).",
     "explanation": "Static analysis of the type-checked AST (libTooling extractor + rule engine). Decides the "
                    "structural clauses of C02 for all inputs/histories: count identities are compared symbolically "
                    "(all subsets of optional members at once), framing is an ordering/guard invariant of three "
